@@ -35,6 +35,7 @@ type Obligation struct {
 }
 
 type VC struct {
+	absRem bool // `absrem` clause: x % y with a variable divisor is an abstract function (range facts only)
 	prog      *Program
 	mode      Mode
 	name      string
@@ -63,6 +64,8 @@ type VC struct {
 	allocNames map[string]bool     // references created by allocRef: pairwise distinct
 	allocList    []string          // the same references in allocation order
 	elemDeclared bool              // an elemaddr_T function (and iselem) has been declared
+	unitPkg      string         // package name of the unit being verified
+	models       []string       // model namespaces of the unit's package (see ContractSet.PkgModels)
 	embSites     int            // number of embedding functions declared (site tags, see emb)
 	embSite      map[string]int // embedding function -> its site tag
 	opaque    map[string]bool // spec fns whose definition is hidden in this unit (clause `opaque pkg.f ...`)
@@ -309,6 +312,21 @@ func (vc *VC) declIsElem() {
 	for _, r := range vc.allocList {
 		vc.axiom("(not (iselem " + r + "))")
 	}
+}
+
+// fcOf: the contract a call to key is checked against in this unit: a model-namespace entry of the unit's package first
+// (extern@NAME blocks + `usemodel NAME`), then the contract under the plain key.
+func (vc *VC) fcOf(key string) *FuncContract {
+	for _, m := range vc.models {
+		if fc := vc.prog.cs.Funcs[m+"::"+key]; fc != nil {
+			return fc
+		}
+	}
+	fc := vc.prog.cs.Funcs[key]
+	if fc != nil && fc.Private && fc.Pkg != vc.unitPkg {
+		return nil
+	}
+	return fc
 }
 
 func fieldKey(S types.Type, fname string) string { return "F:" + structKey(S) + "." + fname }
